@@ -78,7 +78,7 @@ def cases(rng, tier):
     while len(out) < n:
         ch = chains[i % len(chains)] if i < 2 * len(chains) else G.chain(rng, aes=True)
         i += 1
-        out.append({"chain": ch, "header": rng.choice(["encoded", "raw", "encrypted_ctor", "encrypted_setter"]), "password": rng.choice(G.PASSWORDS),
+        out.append({"chain": ch, "header": rng.choice(["encoded", "raw", "encrypted_ctor", "encrypted_setter", "encrypted_ctor+unpacked", "encrypted_setter+unpacked"]), "password": rng.choice(G.PASSWORDS),
                     "nmembers": rng.choice([1, 2, 3]), "sizes": [rng.choice([24, 31, 32, 33, 48, 100, 1000, 5000, 40000]) for _ in range(3)], "seed": rng.getrandbits(32),
                     "append": rng.random() < 0.3, "append_header": rng.choice(["same", "default", "upgrade"])})
     return out
